@@ -418,6 +418,44 @@ def check_special_types():
         for y in group:
             if x == y and (hash(x) != hash(y) or y not in {x} or len({x: 1, y: 2}) != 1):
                 bad('equal-but-hash-differs', f'{x!r} == {y!r} but they hash differently (both went through the type\'s post_init)')
+    # tuple subclasses made on the fly (a namedtuple, typing.NamedTuple) and list / dict subclasses are
+    # collections like any other: the task is constructible, equal to the plain spelling, and its copy
+    # crosses a process boundary although the classes themselves cannot be imported anywhere
+    import typing
+    Point = _collections.namedtuple('Pt', 'x y')
+    TPoint = typing.NamedTuple('TPoint', [('a', int), ('b', typing.Any)])
+
+    class MyList(list):
+        pass
+    for build_v, plain in ((lambda: Point(1, [2, A.Leaf(3)]), (1, [2, A.Leaf(3)])), (lambda: [TPoint(1, {'k': Point(0, 0)})], [(1, {'k': (0, 0)})]),
+                           (lambda: {'k': Point(A.Leaf(1), None)}, {'k': (A.Leaf(1), None)}), (lambda: MyList([1, MyList([2])]), [1, [2]]),
+                           (lambda: _collections.OrderedDict(b=1, a=MyList()), {'b': 1, 'a': []})):
+        try:
+            t = A.Foo(p=build_v())
+        except BaseException as e:  # noqa
+            bad('supported-rejected', f'Foo(p={build_v()!r}) raised {type(e).__name__}: {e}')
+            continue
+        ref = A.Foo(p=plain)
+        if not (t == ref) or hash(t) != hash(ref) or t.cache_key != ref.cache_key:
+            bad('spelling-unequal', f'{t!r} (built from collection subclasses) is not equal (hash, key) to the plain spelling {ref!r}')
+        for proto in (2, 5):
+            try:
+                c = pickle.loads(pickle.dumps(t, protocol=proto))
+            except BaseException as e:  # noqa
+                bad('pickle-raised', f'protocol {proto}: {t!r} built from {build_v()!r}: {type(e).__name__}: {e}')
+                continue
+            if not (c == t) or hash(c) != hash(t) or c.cache_key != t.cache_key or [canon(x) for x in get_direct_dependencies(c)] != [canon(x) for x in find_tasks(ref.p)]:
+                bad('copy-unequal', f'protocol {proto}: copy of {t!r} is not an equal task with the same key and dependencies')
+    # flag enums: combinations and unnamed values
+    for v in (A.Perm.R | A.Perm.X, A.Perm(0), A.IPerm.A | A.IPerm.B, A.IPerm(9)):
+        t = A.Foo(p=[v, {'k': v}])
+        for proto in (2, 5):
+            try:
+                c = pickle.loads(pickle.dumps(t, protocol=proto))
+                if not (c == t) or hash(c) != hash(t) or c.cache_key != t.cache_key or c.p[0] is not v:
+                    bad('copy-unequal', f'protocol {proto}: copy of {t!r} is not an equal task with the same key')
+            except BaseException as e:  # noqa
+                bad('pickle-raised', f'protocol {proto}: {t!r}: {type(e).__name__}: {e}')
     # a collection object that is changed between two constructions
     lst = [1]
     a = A.Foo(p=lst)
